@@ -1,4 +1,5 @@
 import Csverif.Model.Event
+import Csverif.Model.Durable
 import Csverif.Model.Spec.Restart
 import Csverif.Driver.Monitor
 /-
@@ -107,5 +108,36 @@ def stepMon (toks : List String) : String :=
         | none => "reject conflicted-artefact ?"
     | _, _ => "bad-arg"
   | _ => CS.Driver.Monitor.step toks
+
+/-! ### layer `durable`: one recorded write-order trace of the real EventManager per line
+
+tokens: `wb` walk begins, `wr:<k>` a walk item made an entry dirty, `pe:<i>` feed event i made an entry dirty, `cm` the dirty set was
+written back, `mk` / `dm` walk marker written / deleted, `cu:<p>` cursor row written, `ft` the step ended in an error, `rs` engine
+dropped and a new one started, `xc` / `xw` cursor / marker row lost from outside, `fg` forget.
+answer: `ok` or `reject <index> <token> order|coverage` (first breach of the write-order discipline / of durable coverage). -/
+open CS.Durable in
+def decStep (t : String) : Option CS.Durable.Step :=
+  match t.splitOn ":" with
+  | ["wb"] => some .walkBegin
+  | ["wr", k] => k.toNat?.map .walkRecord
+  | ["cm"] => some .commit
+  | ["mk"] => some .writeMarker
+  | ["dm"] => some .dropMarker
+  | ["cu", p] => p.toInt?.map .writeCursor
+  | ["pe", i] => i.toInt?.map .processEvent
+  | ["ft"] => some .fault
+  | ["rs"] => some .restart
+  | ["xc"] => some .extCursorLost
+  | ["xw"] => some .extMarkerLost
+  | ["fg"] => some .forget
+  | _ => none
+
+def stepDurable (toks : List String) : String :=
+  match toks.mapM decStep with
+  | none => "bad-arg"
+  | some steps =>
+    match CS.Durable.monitor {} 0 steps with
+    | none => "ok"
+    | some (n, _, order) => s!"reject {n} {toks.getD n "?"} {if order then "order" else "coverage"}"
 
 end CS.Driver.MonC06
